@@ -14,3 +14,5 @@ pub mod c01_bitops;
 pub mod c01_branch;
 #[cfg(kani)]
 pub mod c16_misc;
+#[cfg(kani)]
+pub mod c16_freelist;
